@@ -66,6 +66,16 @@ wrap_line = partial(wrap_line_base, pad_func=pad_fortran)
 
 # {{{ name manager
 
+# Fortran identifiers may be at most 63 characters long. Leave room for the
+# suffix that makes a name unique and for the 'dagrt_refcnt_' prefix.
+_MAX_FORTRAN_BASE_NAME_LENGTH = 40
+
+
+def _make_fortran_identifier_from_name(name):
+    from dagrt.codegen.utils import make_identifier_from_name
+    return make_identifier_from_name(name)[:_MAX_FORTRAN_BASE_NAME_LENGTH]
+
+
 def _make_fortran_unique_name_generator():
     from pytools import UniqueNameGenerator
 
@@ -91,11 +101,16 @@ class FortranNameManager:
 
     def __init__(self):
         self.name_generator = _make_fortran_unique_name_generator()
-        self.local_map = KeyToUniqueNameMap(name_generator=self.name_generator)
+        self.local_map = KeyToUniqueNameMap(
+                name_generator=self.name_generator,
+                key_translate_func=_make_fortran_identifier_from_name)
         self.global_map = KeyToUniqueNameMap(start={
                 "<t>": "dagrt_t", "<dt>": "dagrt_dt"},
-                name_generator=self.name_generator)
-        self.function_map = KeyToUniqueNameMap(name_generator=self.name_generator)
+                name_generator=self.name_generator,
+                key_translate_func=_make_fortran_identifier_from_name)
+        self.function_map = KeyToUniqueNameMap(
+                name_generator=self.name_generator,
+                key_translate_func=_make_fortran_identifier_from_name)
 
     def name_global(self, var):
         """Return the identifier for a global variable."""
